@@ -249,7 +249,9 @@ func (n *node) RouteSendEvent(from gen.PID, token gen.Ref, options gen.MessageOp
 		}
 
 		if event.last != nil {
+			event.lastMutex.Lock()
 			event.last.Push(message)
+			event.lastMutex.Unlock()
 		}
 	}
 
@@ -815,6 +817,7 @@ func (n *node) RouteLinkEvent(pid gen.PID, target gen.Event) ([]gen.MessageEvent
 
 		if event.last != nil {
 			// load last N events
+			event.lastMutex.Lock()
 			item := event.last.Item()
 			for {
 				if item == nil {
@@ -824,6 +827,7 @@ func (n *node) RouteLinkEvent(pid gen.PID, target gen.Event) ([]gen.MessageEvent
 				lastEventMessages = append(lastEventMessages, v)
 				item = item.Next()
 			}
+			event.lastMutex.Unlock()
 		}
 
 		c := atomic.AddInt32(&event.consumers, 1)
@@ -1186,6 +1190,7 @@ func (n *node) RouteMonitorEvent(pid gen.PID, target gen.Event) ([]gen.MessageEv
 
 		if event.last != nil {
 			// load last N events
+			event.lastMutex.Lock()
 			item := event.last.Item()
 			for {
 				if item == nil {
@@ -1195,6 +1200,7 @@ func (n *node) RouteMonitorEvent(pid gen.PID, target gen.Event) ([]gen.MessageEv
 				lastEventMessages = append(lastEventMessages, v)
 				item = item.Next()
 			}
+			event.lastMutex.Unlock()
 		}
 
 		c := atomic.AddInt32(&event.consumers, 1)
